@@ -157,6 +157,9 @@ func (r *Run) Violation(key, what string, replay any) bool {
 	}
 	r.violOrder = append(r.violOrder, key)
 	dir := filepath.Join(r.Root, "replays")
+	if d := os.Getenv("VERIF_EVIDENCE_DIR"); d != "" {
+		dir = filepath.Join(d, "replays")
+	}
 	_ = os.MkdirAll(dir, 0o755)
 	p := filepath.Join(dir, r.ID+"-"+unsafeChars.ReplaceAllString(key, "_")+".json")
 	b, _ := json.MarshalIndent(map[string]any{
@@ -235,6 +238,9 @@ func (r *Run) Finish() {
 	}
 	b, _ := json.MarshalIndent(ev, "", " ")
 	dir := filepath.Join(r.Root, "evidence")
+	if d := os.Getenv("VERIF_EVIDENCE_DIR"); d != "" {
+		dir = d // mutant runs against a scratch worktree must not overwrite the real evidence
+	}
 	_ = os.MkdirAll(dir, 0o755)
 	if err := os.WriteFile(filepath.Join(dir, r.ID+".json"), append(b, '\n'), 0o644); err != nil {
 		fmt.Fprintln(os.Stderr, "evidence write failed:", err)
